@@ -427,31 +427,47 @@ type monitorHandler struct {
 	initCh chan<- error
 	logCh  chan<- string
 	seq    uint64
+
+	// lock serialises Handle (reader goroutine) with Cleanup (Stop/Close)
+	lock sync.Mutex
 }
 
 func (mh *monitorHandler) Handle(resp *responseHeader) {
+	mh.lock.Lock()
+
 	// Initialize on the first response
 	if !mh.init {
 		mh.init = true
 		mh.initCh <- strToError(resp.Error)
+		mh.lock.Unlock()
 		return
 	}
 
 	// Decode logs for all other responses
 	var rec logRecord
 	if err := mh.client.dec.Decode(&rec); err != nil {
+		mh.lock.Unlock()
 		log.Printf("[ERR] Failed to decode log: %v", err)
 		mh.client.deregisterHandler(mh.seq)
 		return
 	}
-	select {
-	case mh.logCh <- rec.Log:
-	default:
-		log.Printf("[ERR] Dropping log! Monitor channel full")
+
+	// Stop or Close may have closed the channel after the reader looked
+	// this handler up; never send on it then.
+	if !mh.closed {
+		select {
+		case mh.logCh <- rec.Log:
+		default:
+			log.Printf("[ERR] Dropping log! Monitor channel full")
+		}
 	}
+	mh.lock.Unlock()
 }
 
 func (mh *monitorHandler) Cleanup() {
+	mh.lock.Lock()
+	defer mh.lock.Unlock()
+
 	if !mh.closed {
 		if !mh.init {
 			mh.init = true
@@ -509,31 +525,47 @@ type streamHandler struct {
 	initCh  chan<- error
 	eventCh chan<- map[string]any
 	seq     uint64
+
+	// lock serialises Handle (reader goroutine) with Cleanup (Stop/Close)
+	lock sync.Mutex
 }
 
 func (sh *streamHandler) Handle(resp *responseHeader) {
+	sh.lock.Lock()
+
 	// Initialize on the first response
 	if !sh.init {
 		sh.init = true
 		sh.initCh <- strToError(resp.Error)
+		sh.lock.Unlock()
 		return
 	}
 
 	// Decode logs for all other responses
 	var rec map[string]any
 	if err := sh.client.dec.Decode(&rec); err != nil {
+		sh.lock.Unlock()
 		log.Printf("[ERR] Failed to decode stream record: %v", err)
 		sh.client.deregisterHandler(sh.seq)
 		return
 	}
-	select {
-	case sh.eventCh <- rec:
-	default:
-		log.Printf("[ERR] Dropping event! Stream channel full")
+
+	// Stop or Close may have closed the channel after the reader looked
+	// this handler up; never send on it then.
+	if !sh.closed {
+		select {
+		case sh.eventCh <- rec:
+		default:
+			log.Printf("[ERR] Dropping event! Stream channel full")
+		}
 	}
+	sh.lock.Unlock()
 }
 
 func (sh *streamHandler) Cleanup() {
+	sh.lock.Lock()
+	defer sh.lock.Unlock()
+
 	if !sh.closed {
 		if !sh.init {
 			sh.init = true
@@ -592,49 +624,70 @@ type queryHandler struct {
 	ackCh  chan<- string
 	respCh chan<- NodeResponse
 	seq    uint64
+
+	// lock serialises Handle (reader goroutine) with Cleanup (Stop/Close)
+	lock sync.Mutex
 }
 
 func (qh *queryHandler) Handle(resp *responseHeader) {
+	qh.lock.Lock()
+
 	// Initialize on the first response
 	if !qh.init {
 		qh.init = true
 		qh.initCh <- strToError(resp.Error)
+		qh.lock.Unlock()
 		return
 	}
 
 	// Decode the query response
 	var rec queryRecord
 	if err := qh.client.dec.Decode(&rec); err != nil {
+		qh.lock.Unlock()
 		log.Printf("[ERR] Failed to decode query response: %v", err)
 		qh.client.deregisterHandler(qh.seq)
 		return
 	}
 
-	switch rec.Type {
-	case queryRecordAck:
-		select {
-		case qh.ackCh <- rec.From:
-		default:
-			log.Printf("[ERR] Dropping query ack, channel full")
-		}
+	// Close may have closed the channels after the reader looked this
+	// handler up; never send on them then.
+	done := false
+	if !qh.closed {
+		switch rec.Type {
+		case queryRecordAck:
+			select {
+			case qh.ackCh <- rec.From:
+			default:
+				log.Printf("[ERR] Dropping query ack, channel full")
+			}
 
-	case queryRecordResponse:
-		select {
-		case qh.respCh <- NodeResponse{rec.From, rec.Payload}:
-		default:
-			log.Printf("[ERR] Dropping query response, channel full")
-		}
+		case queryRecordResponse:
+			select {
+			case qh.respCh <- NodeResponse{rec.From, rec.Payload}:
+			default:
+				log.Printf("[ERR] Dropping query response, channel full")
+			}
 
-	case queryRecordDone:
-		// No further records coming
+		case queryRecordDone:
+			// No further records coming
+			done = true
+
+		default:
+			log.Printf("[ERR] Unrecognized query record type: %s", rec.Type)
+		}
+	}
+	qh.lock.Unlock()
+
+	// Deregistering runs Cleanup, which takes the lock itself
+	if done {
 		qh.client.deregisterHandler(qh.seq)
-
-	default:
-		log.Printf("[ERR] Unrecognized query record type: %s", rec.Type)
 	}
 }
 
 func (qh *queryHandler) Cleanup() {
+	qh.lock.Lock()
+	defer qh.lock.Unlock()
+
 	if !qh.closed {
 		if !qh.init {
 			qh.init = true
